@@ -45,7 +45,7 @@ logging.getLogger("tsdate").addHandler(logging.NullHandler())  # keep "could not
 
 def budget(tier):
     if tier == "quick":
-        return dict(examples=400, shards=4)
+        return dict(examples=300, shards=4, time_s=2400)  # time_s: only a guard for overloaded machines
     return dict(examples=2500, shards=16)
 
 
